@@ -23,8 +23,16 @@ pred derived(items []Item, f int, p Params) :=
             && items[k].Timestamp == ite(p.Times, recTs(f, k), 0)
             && items[k].KeyHash == ite(p.Keys, recHash(f, k), 0))
 
+// The key tree (I8: per hash the positions of the items with that hash, ascending) is ASSUMED to be what
+// indexer.Keys says; an invariant over the tree did not converge (DESIGN.md 10.2). Proved here, per step: an item's
+// position is put at the END of its hash's list (GetByKey scans the list from its end for the last match,
+// ConsumeByKey walks it in order), and a new list starts with just that position.
 func AppendKeys
-    flags assumed
+    flags noframe only_keys
+    assert[keys_append] len(kp.positions) >= 1 && kp.positions[len(kp.positions)-1] == item.Position at store keyPositions.positions 1
+    assert[keys_insert] typeis(arg1, *keyPositions) && len(arg1.(*keyPositions).positions) == 1 && arg1.(*keyPositions).positions[0] == item.Position at call art.Tree.Insert 1
+    loop 1
+      invariant[keys] true
 
 pred relative(o int64) := o == message.OffsetOldest || o == message.OffsetNewest
 
